@@ -447,8 +447,11 @@ def main():
                 flags = FLAG_GROUPS[fg]
                 tmo = max(o.get("timeout", 600) for o in gobs)
                 mem = max(o.get("mem_gb", 3) for o in gobs)
-                share = max(1, len(groups) if len(groups) < 3 else 3)
-                jobs = max(1, min(a.jobs // (1 if len(groups) == 1 else 2), len(gobs), int((56 // share) // mem) or 1))
+                # memory budget of this group: its share of the estimated memory of everything that runs concurrently
+                gsum = sum(o.get("mem_gb", 3) for o in gobs)
+                tsum = sum(o.get("mem_gb", 3) for g in groups.values() for o in g if g[0]["crate"] != "__verus__") or gsum
+                budget_gb = max(mem, 56.0 * gsum / tsum)
+                jobs = max(1, min(a.jobs, len(gobs), int(budget_gb // mem) or 1))
                 tag = "%s.%s.%s" % (crate, fg, jc)
                 out_json = os.path.join(logdir, tag + ".json")
                 logf = os.path.join(logdir, tag + ".log")
